@@ -33,7 +33,8 @@ Title == <<84, 76, 65>> \o <<0>> \o [i \in 1..26 |-> 32]      \* "TLA", NUL, pad
 HeaderBytes(p, c) ==
   CASE Header = "RAT" -> <<Esc, 1, 0>> \o p
     [] Header = "MGE-RLE" -> <<0>> \o p \o <<c, 0>> \o Title \o <<0, 0>>
-    [] Header = "MGE-RAW" -> <<0>> \o p \o <<c, 255>> \o Title \o <<0, 0>>
+    \* (any non-zero storage flag means "not run-length coded"; Skip, unused by this layout, selects the flag value)
+    [] Header = "MGE-RAW" -> <<0>> \o p \o <<c, IF Skip = 0 THEN 255 ELSE Skip>> \o Title \o <<0, 0>>
     [] Header = "HRS" -> [i \in 1..Skip |-> (37 * i) % 256] \o p
     [] Header = "VEF" -> <<0, VefType>> \o p
     \* MAX: 0, data length (big endian), two unused bytes; Newsroom ART: bytes per row, rows
